@@ -322,6 +322,24 @@ func catalogue() []recipe {
 		addTx(d, x.spend(c, 0, func(tx *wire.MsgTx) { tx.LockTime = uint32(d.Height + 100); tx.Version = 1 }), 0)
 		return true
 	})
+	// the height / time switch of the lock time: 500000000 is the first value read as a timestamp (1985, long past),
+	// 499999999 the last one read as a height (never reached)
+	add("locktime:threshold-exact-is-a-time", V, "", func(x *ctx, d *chaingen.Draft) bool {
+		c, ok := x.anyCoin()
+		if !ok {
+			return false
+		}
+		addTx(d, x.spend(c, 0, func(tx *wire.MsgTx) { tx.LockTime = 500000000; tx.TxIn[0].Sequence = 0xfffffffe; tx.Version = 1 }), 0)
+		return true
+	})
+	add("locktime:threshold-1-is-a-height", E, "bc:unfinalized", func(x *ctx, d *chaingen.Draft) bool {
+		c, ok := x.anyCoin()
+		if !ok {
+			return false
+		}
+		addTx(d, x.spend(c, 0, func(tx *wire.MsgTx) { tx.LockTime = 499999999; tx.TxIn[0].Sequence = 0xfffffffe; tx.Version = 1 }), 0)
+		return true
+	})
 	add("locktime:mtp-1", V, "", func(x *ctx, d *chaingen.Draft) bool {
 		c, ok := x.anyCoin()
 		if !ok || !x.g.Witness {
